@@ -1,7 +1,7 @@
 SPECIFICATION Spec
 CONSTANTS
-  PipeNames = {"from_owned", "owned_try_into", "map"}
-  MaxTraits = 2
+  PipeNames <- AllTraitNames
+  MaxTraits = 1
   MaxMembers = 2
   AnyOrder = FALSE
   RepeatConflictIsError = TRUE
